@@ -311,7 +311,13 @@ _AMEND = {
         "observation; lexical scoping, rebinding, calls from closures, optimizeTailRec variants compared by instruction list). "
         "coq/sem/DenLink.v + VmLink.v + props/C01link.v: on the state-free fragment F0 the CPS reference semantics equals an eager "
         "list semantics, which is related to c01vm's denotation under an embedding of values and natives, giving the END-TO-END "
-        "theorem C01link_vm_is_sem: the VM run of the compiled (peepholed) code yields exactly Sem.observe's outputs and ending.",
+        "theorem C01link_vm_is_sem: the VM run of the compiled (peepholed) code yields exactly Sem.observe's outputs and ending. "
+        "THIRD WAVE: c01vm2 now covers functions with FILTER parameters (closures over the call site's environment, arity "
+        "overloading) and $VALUE parameters (evaluation order as compiled), recursion with the converse direction (the VM "
+        "terminates iff the denotation does for some fuel, same observation) and never-stuck, and the whole-program "
+        "optimizeTailRec theorem (C01vm_tailrec_compile_correct / C01vm_tailrec_sound: with and without the pass the code has the "
+        "denotation's observation). The end-to-end link now covers all of fragment F except constant arrays/objects: also //, "
+        "foreach, label/break (label ids related by a renaming lemma) and the arithmetic/comparison operators (right operand first).",
  "C02": " SECOND WAVE: abs_delpaths (mark-then-sweep with the owned-only deleteEmpty denotes value-level deletion against the original "
         "value, with frame, acyclicity and invariant), the whole compileAssign/compileModify loops lifted (C02_assign_sound, "
         "C02_modify_sound under body_ok; D5/D9 are exactly the runs outside body_ok), getpath aliasing, and slices followed by an "
